@@ -50,11 +50,26 @@ def step (s : St') (op : List String) (impl : String) : LineOut St' :=
     let (st, r) := callSeq P s.st .join
     let m := if s.begun && impl != "refused" then some ("join-not-refused", "a join after a leave or shutdown had begun was not refused") else none
     { state := { s with st := st }, model := some (match r with | .ok => "attempted" | .err => "refused"), monitor := m }
+  | ["joinduringleave"] =>
+    -- a Join attempted while a Leave is in progress (state `leaving`): model = Leave's first region, then Join's
+    let (st1, _) := execRegion (P.leave.headD []) .alive
+    let (_, r) := callSeq P st1 .join
+    let expect := (match r with | .ok => "attempted" | .err => "refused") ++ " left"
+    let m := if impl.startsWith "attempted" then some ("join-not-refused", "a join issued while a leave was in progress was not refused")
+             else if impl == "leaving-not-observed" || impl == "node-error" then none else none
+    if impl == "leaving-not-observed" || impl == "node-error" then { state := s, model := none, note := some "setup-failed" }
+    else { state := s, model := some expect, monitor := m }
   | "conc" :: _ =>
     -- obs s0,s1,…|leave:ok,join:refused,…   (state samples in observation order)
     match (String.ofList (impl.toList.drop 4)).splitOn "|" with
-    | [samples, _results] =>
+    | [samples, results] =>
       if !impl.startsWith "obs " then { state := s, model := some "obs …" } else
+      -- a call that panicked: the recorded finding (Leave racing Shutdown) or anything else
+      if (results.splitOn ",").any (fun r => r.startsWith "leave:panic-leave-after-shutdown") then
+        { state := s, model := none, monitor := some ("leave-shutdown-panic", "Leave() panicked inside memberlist (\"leave after shutdown\") because Shutdown() ran concurrently") }
+      else if (results.splitOn ",").any (fun r => (r.splitOn ":panic-").length > 1) then
+        { state := s, model := none, monitor := some ("panic", results) }
+      else
       let rs := (samples.splitOn ",").filter (· ≠ "")
       let m := rs.foldl (fun (acc : Nat × Option (String × String)) x =>
         match acc.2, rankOf? x with
